@@ -163,7 +163,7 @@ int main (int argc, char **argv)
 	{	int format = majors [a] | subs [b] ;
 		if (!vh_accepts (format, c, 44100)) continue ;
 		for (k = 0 ; k < (vh_thorough ? 221 : (int) (sizeof (counts) / sizeof (counts [0]))) ; k++) for (ids = 0 ; ids < 5 ; ids++)
-		{	int reps = vh_thorough ? 20 : 6, r, cnt = vh_thorough ? k : counts [k] ;		/* thorough: every chunk count 0..220 */
+		{	int reps = vh_thorough ? 20 : 16, r, cnt = vh_thorough ? k : counts [k] ;		/* thorough: every chunk count 0..220 */
 			if (c == 2 && !vh_thorough && (k % 3)) continue ;
 			for (r = 0 ; r < reps ; r++)
 			{	if (!vh_case ("%s ch=%d chunks=%d ids=%d rep=%d", vh_fname (format), c, cnt, ids, r)) continue ;
